@@ -517,7 +517,7 @@ func main() {
 		}
 	}
 	// ---- random sessions ----
-	for i := 0; i < c.N(110, 5000); i++ {
+	for i := 0; i < c.N(110, 1500); i++ {
 		tag := tags[c.Rng.Intn(3)]
 		if c.Rng.Chance(1, 4) {
 			tag = c.Rng.Bytes(4)
